@@ -171,7 +171,23 @@ class GroupBuild:
         self.listing.append('### impl /%s/ (%s)\n%s\n%s\n' % (header_pat, rel, '\n'.join('  - ' + l for l in log), X.listing(orig, new, header_pat)))
 
     def fn(self, unit, rel, name, spec=None, impl=None, nth=0, stub=False, wrap_impl=None, props=(), resname='res', assumed_as=()):
-        secs = parse_spec(os.path.join(VERUS_DIR, 'contracts', spec)) if spec else {
+        if spec and '+' in spec:
+            # 'a.spec+b.spec': the contract of a.spec (the text other groups assume) with the proof annotations of b.spec
+            parts = [parse_spec(os.path.join(VERUS_DIR, 'contracts', x)) for x in spec.split('+')]
+            secs = parts[0]
+            for q in parts[1:]:
+                for k, v in q.items():
+                    if k == 'contract':
+                        if v.strip():
+                            raise X.LostAnchor('spec merge: second contract section in ' + spec)
+                    elif isinstance(v, dict):
+                        secs[k].update(v)
+                    elif isinstance(v, list):
+                        secs[k].extend(v)
+                    elif v:
+                        secs[k] = v
+        else:
+          secs = parse_spec(os.path.join(VERUS_DIR, 'contracts', spec)) if spec else {
             'contract': '', 'loops': {}, 'never_loop': None, 'to_string': [], 'proofs': [], 'subst': [], 'prologue': '', 'drop_enumerate': []}
         log = []
         orig, new = X.emit_fn(self.src(rel), name, impl=impl, nth=nth, contract=secs['contract'],
